@@ -19,8 +19,18 @@ submitted function with its program counter, and the `Wait()` callers.
 Every submission is its own process (`Go` may be called from any number of
 goroutines); a single submitting goroutine is the special case where submission
 `i+1` takes no step before submission `i` has reached `ready`.
-What `fn` does is an input: `Outcome.ok` (returns) or `Outcome.panic v`; how long it
-runs is the scheduler's choice (the step `running → recovering` can be delayed forever).
+What `fn` does is an input — the ways a submitted function can END: `Outcome.ok` (returns;
+also a function that panics and recovers by itself), `Outcome.panic v` (a panic whose value
+`recover()` reports: any non-nil value, `panic(nil)` in a process running with the Go ≥ 1.21
+default `panicnil=0` — the value is then a `*runtime.PanicNilError` —, a re-panic in a deferred
+function: `v` is the value of the LAST panic), `Outcome.panicNil` (`panic(nil)` in a process
+running with `GODEBUG=panicnil=1`, the default for main modules that say `go` < 1.21 such as
+golib's own go.mod: the panic is stopped by `recover()`, which returns nil) and
+`Outcome.goexit` (`runtime.Goexit()`, e.g. `t.FailNow` in a worker — NOT a panic: the deferred
+calls run, `recover()` returns nil, the goroutine ends).  `Outcome.recovered` is what the
+`recover()` call of the outer deferred function returns; the code branches on nothing else.
+How long `fn` runs is the scheduler's choice (the step `running → recovering` can be delayed
+forever).
 A Go panic inside a cleanup (`w.Done()` on a zero counter) is modelled explicitly
 (`cleanupPanicked`); the theorems show it is unreachable.
 Core-only.
@@ -28,9 +38,18 @@ Core-only.
 namespace Golib.C19
 
 inductive Outcome where
-  | ok
-  | panic (v : Int)
+  | ok                 -- `fn` returns
+  | panic (v : Int)    -- `fn` panics and `recover()` reports the value `v` (non-nil)
+  | panicNil           -- `panic(nil)` under `GODEBUG=panicnil=1`: recovered, but `recover()` returns nil
+  | goexit             -- `runtime.Goexit()`: deferred calls run, `recover()` returns nil (not a panic)
 deriving DecidableEq, Repr
+
+/-- What `recover()` returns in the outer deferred function of `Recover` once `fn` has been
+left (`none` = nil).  The deferred function runs for EVERY way of leaving `fn` — return,
+panic, `Goexit` — because it was registered by `defer` before `fn()` (fact `recoverBody`). -/
+def Outcome.recovered : Outcome → Option Int
+  | .panic v => some v
+  | .ok | .panicNil | .goexit => none
 
 /-- What a panic handler invocation received. -/
 inductive HVal where
@@ -44,7 +63,7 @@ inductive Pc where
   | added        -- before `go Recover(fn, l.panicHandler, l.done)`
   | ready        -- goroutine created (`Go` has returned); before `fn()`
   | running      -- inside `fn`
-  | recovering   -- `fn` left (returned / panicked); outer deferred function, before `recover()`
+  | recovering   -- `fn` left (returned / panicked / `Goexit`); outer deferred function, before `recover()`
   | cleanup      -- handler called or skipped; before `l.w.Done()`
   | wgDone       -- after `l.w.Done()`; before `<-l.c`
   | exited       -- token received back; inner deferred function saw no panic; goroutine gone
@@ -111,12 +130,12 @@ def St.adv (s : St) (i : Nat) : Option St :=
       some { s with tasks := s.tasks.set i { t with pc := .ready, hid := s.cur } }
     | .ready =>      -- fn()
       some { s with tasks := s.tasks.set i { t with pc := .running, starts := t.starts + 1 } }
-    | .running =>    -- fn returns or panics
+    | .running =>    -- fn ends: returns, panics, or calls runtime.Goexit (the deferred function runs in all cases)
       some { s with tasks := s.tasks.set i { t with pc := .recovering } }
-    | .recovering => -- if p := recover(); p != nil { handler(p) }
-      match t.outcome with
-      | .ok => some { s with tasks := s.tasks.set i { t with pc := .cleanup } }
-      | .panic v =>
+    | .recovering => -- if p := recover(); p != nil { handler(p) }   (`recover()` = `t.outcome.recovered`)
+      match t.outcome.recovered with
+      | none => some { s with tasks := s.tasks.set i { t with pc := .cleanup } }
+      | some v =>
         some { s with tasks := s.tasks.set i { t with pc := .cleanup, handled := t.handled ++ [.val v] } }
     | .cleanup =>    -- l.w.Done()   (panics on a zero counter)
       if s.wg = 0 then
